@@ -451,6 +451,29 @@ func Family(name string, tier string) []*Scenario {
 		out = append(out, retryWithOtherFault(thorough)...)
 		out = append(out, runThenExtend(thorough)...)
 		out = append(out, sharedSaturated(thorough)...)
+	case "C16sort":
+		// (c) DepthFirstSort alone on every DAG shape with up to five vertices, and on the same shapes with one
+		// extra edge that closes a cycle; explored over the rotations of its map ranges
+		add := func(n int, es [][2]int) {
+			sc := GraphScenario(n, es, make([][]string, n), nil, "par")
+			sc.Hist = append(sc.Hist, Call{"sort", 0, 0})
+			sc.SortOnly, sc.History = true, true
+			out = append(out, sc)
+		}
+		for n := 1; n <= 4; n++ {
+			for _, es := range AllDAGs(n) {
+				add(n, es)
+				if n <= 3 || thorough {
+					// close a cycle with one back edge (for every edge)
+					for _, e := range es {
+						add(n, append(append([][2]int{}, es...), [2]int{e[1], e[0]}))
+					}
+				}
+			}
+		}
+		for _, es := range shapes5 {
+			add(5, es)
+		}
 	case "C16hist":
 		// (a) construction histories
 		depth := 4
